@@ -60,6 +60,10 @@ def run(tier, seed, t0):
     jobs.append(Job("asand-allocators", "drv_c16", "asand", "nayuki-avx", ["--mode", "allocators", "--reps", 1, "--seed", seed], timeout=7200))
     jobs.append(Job("asan-iokinds", "drv_c16", "asan", "spqlios-fma", ["--mode", "iokinds", "--reps", 12 if thorough else 4, "--seed", seed], timeout=3600))
     jobs.append(Job("memcheck-iokinds", "drv_c16", "vg", "nayuki-avx", ["--mode", "iokinds", "--reps", 3 if thorough else 1, "--seed", seed], tool="memcheck", timeout=7200))
+    # objects released while the process exits (early-registered exit handler, destructor of a global object)
+    for fl, be in ([("asan", be) for be in vbuild.BACKENDS] + [("optim", "spqlios-fma"), ("optim", "fftw"), ("debug", "nayuki-portable")] if thorough
+                   else [("asan", "spqlios-fma"), ("asan", "fftw"), ("optim", "nayuki-portable")]):
+        jobs.append(Job("%s-exit-time-%s" % (fl, be), "drv_c16", fl, be, ["--mode", "exit-time", "--seed", seed], timeout=3600, weight=2, meta={"exit_time": True}))
     for be in thread_bes:
         jobs.append(Job("asan-threads-%s" % be, "drv_c16", "asan", be, ["--mode", "threads", "--count", 50, "--burst", 10, "--seed", seed], timeout=3600, weight=4))
     for be in vbuild.BACKENDS:   # native speed: stack/TLS recycling as the C library really does it
@@ -98,7 +102,15 @@ def run(tier, seed, t0):
                 for c, n in e["cells"].items():
                     cells["%s:%s:%s" % (r.job.tool or r.job.flavor, r.job.backend, c)] = n
         agg["cells"] = cells
-        return [], {"tool_reports_total": sum(len(r.tool_reports) for r in results)}
+        viols = []
+        done = {}
+        for r in results:
+            if r.job.meta.get("exit_time"):
+                stages = sorted(e["stat"].get("released_from", "?") for e in r.by_type("stat") if e["stat"].get("kind") == "exit-time")
+                done[r.job.name] = stages
+                if len(stages) != 2 and r.rc == 0 and not r.timed_out:
+                    viols.append(("lifecycle:exit-time-release-did-not-complete", {"job": r.job.name, "completed": stages}, r))
+        return viols, {"tool_reports_total": sum(len(r.tool_reports) for r in results), "exit_time_releases_completed": done}
 
     def drop_foreign(results):
         # functional violations of reused drivers are not C16's business
